@@ -237,7 +237,7 @@ __CPROVER_decreases(c0 - x)
     PC = [bag_prelude(CS, True)]
     CL = [casts(0), ren('std::memory_order_relaxed', 'memory_order_relaxed'), rx(r'datac\.emplace\(', 'la_emplace(self, ', 0), rx(r'datac\.destroy\(', 'la_destroy(self, ', 0),
           rx(r'(?<![\w.>])count\.load\(', '(unsigned)gv_load(&self->count, ', 1, 1),
-          rx(r'(?<![\w.>])count\.compare_exchange_weak\(top, (top [+-] 1)\)', r'gv_cas_weak_u32(&self->count, &top, \1, memory_order_seq_cst)', 1, 1)]
+          rx(r'(?<![\w.>])count\.compare_exchange_weak\(top, ([^()]+)\)', r'gv_cas_weak_u32(&self->count, &top, \1, memory_order_seq_cst)', 1, 1)]
     CASG = '__CPROVER_assigns(__CPROVER_object_whole(self), g_lin_count, g_lin_old, g_lin_new, g_last_read, g_last_load_order, g_last_write_order)'
     LOOP = {1: '''
 __CPROVER_assigns(top, __CPROVER_object_whole(self), g_lin_count, g_lin_old, g_lin_new, g_last_read, g_last_load_order, g_last_write_order)
